@@ -145,7 +145,7 @@ CLAIMED = {
              "body computes; the per-loop obligation (stride >= 1, decided by vm_compute on the regenerated skeleton) and the `for` loops "
              "(over a buffer slice, a caller range or a dict) are checked on every run. Every public decoder is also run on the real code "
              "under a line-count budget linear in the buffer length on empty, truncated, all-zero, all-0xFF, zero-length-field, "
-             "huge-length-field and random buffers. For GET LBA STATUS and PERSISTENT RESERVE IN / READ KEYS the REGENERATED decoder bodies themselves are proved total on EVERY byte string under Model/Py.v: "
+             "huge-length-field and random buffers. For GET LBA STATUS, PERSISTENT RESERVE IN / READ KEYS and REPORT LUNS the REGENERATED decoder bodies themselves are proved total on EVERY byte string under Model/Py.v: "
              "with fuel len(data)+3 they return a value (no exception, no fuel exhaustion) that is spelled out (C11_py_*_every_input, C11_py_no_divergence). A second, "
              "process-level budget (CPU time per call, batches under a deadline, bisected) covers work inside C code (regular expressions) and nested sense descriptors.",
         ref="DESIGN.md §4 C11",
@@ -219,7 +219,7 @@ CLAIMED = {
              "parameters (both regenerated) agree, and a generic theorem gives the list round trip for every number of descriptors. All 15 "
              "structures plus every TransportID and designator kind are round-tripped through the real parser/builder pairs on every run. Both directions of a list structure over the REGENERATED bodies of builder and decoder (Gen/PyFuncs.v under Model/Py.v): GET LBA STATUS "
              "built from any number of complete valid descriptor dictionaries has the standard layout with an honest PARAMETER DATA LENGTH, and decoding what was built "
-             "returns the dictionaries whole and in order (C06_py_getlbastatus_build, C06_py_getlbastatus_parse_inverts_build). Rebuilds are also run with the keys of every "
+             "returns the dictionaries whole and in order (C06_py_getlbastatus_build, C06_py_getlbastatus_parse_inverts_build; the same for REPORT LUNS, whose builder is proved to follow the order of the caller's list: C06_py_reportluns_*). Rebuilds are also run with the keys of every "
              "dictionary reversed / shuffled, with 10..130 list entries, and with UTF-8 names.",
         ref="DESIGN.md §4 C06",
         note="Trusted: Coq kernel + vm_compute; translator; the canonical-response generator tools/spec_resp.py. Partial: how builders and "
